@@ -694,13 +694,14 @@ type home struct {
 }
 
 type gen struct {
-	r     *hx.Rng
-	home  map[string]home
-	npod  map[string]string
-	img   int
-	c13   bool
-	c25   bool
-	lastS []*op // status reports made so far (re-reported unchanged to exercise the keep-alive path)
+	r       *hx.Rng
+	home    map[string]home
+	npod    map[string]string
+	img     int
+	c13     bool
+	c25     bool
+	lastS   []*op // status reports made so far (re-reported unchanged to exercise the keep-alive path)
+	pending []*op // scripted follow-up operations
 }
 
 func (g *gen) labels() map[string]string {
@@ -770,12 +771,48 @@ func (g *gen) nodeArg(name string) *nodeArg {
 	return n
 }
 
+// pattern queues a short scripted status scenario (renewals around TTL changes and entity removal)
+func (g *gen) pattern() {
+	r := g.r
+	cp := func(o *op) *op { c := *o; c.Impl = nil; return &c }
+	switch r.Intn(3) {
+	case 0: // heartbeat (same value, same ttl) after the node was removed
+		nm := hx.Pick(r, nodesU...)
+		st := &op{Op: "setNodeStatus", Node: &nodeArg{Name: nm, Pod: g.npod[nm]}, TTL: int64(hx.Pick(r, 3, 5))}
+		g.pending = append(g.pending, st, &op{Op: "removeNode", Node: &nodeArg{Name: nm, Pod: g.npod[nm]}}, cp(st),
+			&op{Op: "getNodeStatus", Name: nm})
+	case 1: // same value, then a shorter ttl, then time
+		id := hx.Pick(r, wlsU...)
+		h := g.home[id]
+		st := &op{Op: "setWorkloadStatus", Name: id, App: h.app, Entry: h.entry, Nodename: h.node, Running: r.Chance(50), TTL: int64(hx.Pick(r, 5, 10))}
+		st2 := cp(st)
+		st2.TTL = int64(hx.Pick(r, 2, 3))
+		g.pending = append(g.pending, st, st2, &op{Op: "tick", D: int64(hx.Pick(r, 3, 4))}, &op{Op: "getWorkloads", Names: []string{id}})
+	default: // same value, ttl then no ttl, then time
+		id := hx.Pick(r, wlsU...)
+		h := g.home[id]
+		st := &op{Op: "setWorkloadStatus", Name: id, App: h.app, Entry: h.entry, Nodename: h.node, Healthy: r.Chance(50), TTL: int64(hx.Pick(r, 2, 3))}
+		st2 := cp(st)
+		st2.TTL = 0
+		g.pending = append(g.pending, st, st2, &op{Op: "tick", D: 5}, &op{Op: "getWorkloads", Names: []string{id}})
+	}
+}
+
 func (g *gen) next() *op {
 	r := g.r
 	if g.c13 {
 		return g.nextC13()
 	}
+	if len(g.pending) > 0 {
+		o := g.pending[0]
+		g.pending = g.pending[1:]
+		return o
+	}
 	w := r.Intn(100)
+	if g.c25 && r.Chance(6) {
+		g.pattern()
+		return g.next()
+	}
 	if g.c25 {
 		// status-heavy mix
 		switch {
@@ -1026,6 +1063,16 @@ func genCase(r *hx.Rng, id string, prop string) *kase {
 				k.Ops = append(k.Ops, &op{Op: "addNode", Node: na})
 			}
 		}
+	}
+	if g.c25 {
+		for _, id := range wlsU[:4] {
+			if r.Chance(75) {
+				h := g.home[id]
+				g.img++
+				k.Ops = append(k.Ops, &op{Op: "addWorkload", Wl: &wlArg{ID: id, Name: h.app + "_" + h.entry + "_x" + id, Node: h.node, Image: fmt.Sprintf("img%d", g.img)}})
+			}
+		}
+		n += len(k.Ops)
 	}
 	for len(k.Ops) < n {
 		k.Ops = append(k.Ops, g.next())
